@@ -119,7 +119,9 @@ def gen_plan(tape, cfg):
         for si in range(nsolves + 1):
             lst.append(_member_profile(tape, d, family == "faulty", all_fail=(all_fail_at == si)))
         profiles.append(lst)
-    return {"family": family, "symbols": symbols, "members": nmem, "profiles": profiles,
+    member_opts = [tape.choice([None, None, {"random_seed": 7}, {"generate_models": True}], "member.opts")
+                   for _ in range(nmem)]
+    return {"family": family, "symbols": symbols, "members": nmem, "profiles": profiles, "member_opts": member_opts,
             "incremental": bool(tape.draw(2, "incremental")),
             "exit_on_exception": tape.chance(1, 4, "exit_on_exception"),
             "ops": ops}
@@ -214,7 +216,9 @@ def execute(plan, tape):
         opts = {"incremental": plan["incremental"], "generate_models": True}
         if plan["exit_on_exception"]:
             opts["solver_options"] = {"exit_on_exception": True}
-        return api("Portfolio()", Portfolio, names, environment=env, logic=QF_BV, **opts)
+        mo = plan.get("member_opts") or []
+        sset = [(n, dict(mo[j])) if j < len(mo) and mo[j] else n for j, n in enumerate(names)]
+        return api("Portfolio()", Portfolio, sset, environment=env, logic=QF_BV, **opts)
 
     def incarnation_procs(si):
         return [p for p in world.procs if p.incarnation == si and p.key in names]
